@@ -6,6 +6,7 @@ import sys
 import framework as fw
 sys.path.insert(0, os.path.dirname(os.path.abspath(__file__)))
 from framework import REPO
+import c19_lines
 
 TIE = ["Nsq.Tie.ToolsToFile", "Nsq.Tie.ToolsToFileFn"]
 PROPS = ["Nsq.Props.C19", "Nsq.Props.C19Name", "Nsq.Props.C19Disc", "Nsq.Props.C19Ops",
@@ -160,7 +161,12 @@ def run(ctx):
                 continue
             ops = open(os.path.join(out, "tofile.ops")).read().splitlines()
             impl = open(os.path.join(out, "tofile.impl")).read().splitlines()
-            rc, mout = ctx.driver("e8", stdin_path=os.path.join(out, "tofile.ops"))
+            # the model runs with the committed shapes oneWrite = sealsTail = 1 (F46, F47), not with what the harness probed
+            probed = c19_lines.committed_shape_ops(os.path.join(out, "tofile.ops"), os.path.join(out, "tofile.model.ops"))
+            if probed - {("1", "1")}:
+                corr_broken.append("probe of router()/updateFile() on the real code: (one_write, seals_tail) = %s, expected (1, 1) "
+                                   "(F46 85f4c48, F47 efaf20c)" % sorted(probed))
+            rc, mout = ctx.driver("e8", stdin_path=os.path.join(out, "tofile.model.ops"))
             model = mout.splitlines()
             # bookkeeping
             case_of, cur = [], -1
